@@ -93,6 +93,7 @@ _SR_BOUNDS = ('ScopedRemover<%s>: 2 targets, <=3 removers, one of 3 initial conf
 PROPS['C15'] = Prop(
     quick=[Run('scoped_cl_k2', 'scoped.cpp', {'KK': 2, 'TK': 0}, covers=8, optional_covers=(7,), bounds=_SR_BOUNDS % ('CallbackList', 2)),
            Run('scoped_disp_k2', 'scoped.cpp', {'KK': 2, 'TK': 1}, covers=8, optional_covers=(0, 1, 2, 3, 4, 5, 6, 7), bounds=_SR_BOUNDS % ('EventDispatcher', 2)),
+           Run('scoped_disp_equiv_k2', 'scoped.cpp', {'KK': 2, 'TK': 1, 'EQUIV': None}, covers=8, optional_covers=(0, 1, 2, 3, 4, 5, 6, 7), bounds=_SR_BOUNDS % ('EventDispatcher with a Map policy whose key equivalence is coarser than operator== of the event type; listeners added under one event value, removed through the remover under an equivalent, unequal one', 2)),
            Run('scoped_queue_k2', 'scoped.cpp', {'KK': 2, 'TK': 2}, covers=8, optional_covers=(0, 1, 2, 3, 4, 5, 6, 7), bounds=_SR_BOUNDS % ('EventQueue', 2))],
     thorough=[Run('scoped_cl_k3', 'scoped.cpp', {'KK': 3, 'TK': 0}, covers=8, budget_s=1700, bounds=_SR_BOUNDS % ('CallbackList', 3)),
               Run('scoped_disp_k3', 'scoped.cpp', {'KK': 3, 'TK': 1}, covers=8, budget_s=1700, bounds=_SR_BOUNDS % ('EventDispatcher', 3)),
